@@ -11,6 +11,7 @@ import (
 	"net/http"
 	"net/url"
 	"path"
+	"strings"
 
 	"github.com/friendsofgo/errors"
 	"github.com/pquerna/otp"
@@ -263,7 +264,9 @@ func (t *TOTP) PostConfirm(w http.ResponseWriter, r *http.Request) error {
 	}
 
 	totpCodeValues := MustHaveTOTPCodeValues(validator)
-	inputCode := totpCodeValues.GetCode()
+	// totp.Validate ignores surrounding whitespace, the remembered last code
+	// must not differ by it
+	inputCode := strings.TrimSpace(totpCodeValues.GetCode())
 
 	ok = totp.Validate(inputCode, totpSecret)
 	if !ok {
@@ -487,7 +490,8 @@ func (t *TOTP) validate(r *http.Request) (User, string, error) {
 		return user, t.Localizef(r.Context(), authboss.TxtSuccess), nil
 	}
 
-	input := totpCodeValues.GetCode()
+	// totp.Validate ignores surrounding whitespace, the repeat check must too
+	input := strings.TrimSpace(totpCodeValues.GetCode())
 
 	if oneTime, ok := user.(UserOneTime); ok {
 		oldCode := oneTime.GetTOTPLastCode()
